@@ -784,7 +784,12 @@ func (m *Memory) checkGc() {
 		defer m.gcMx.Unlock()
 
 		machId := m.Mach.Id()
-		upper := m.nextId.Load() - uint64(m.Cfg.MaxRecords)
+		// keep the newest MaxRecords records (IDs go up to nextId-1)
+		next := m.nextId.Load()
+		if next <= uint64(m.Cfg.MaxRecords)+1 {
+			return
+		}
+		upper := next - 1 - uint64(m.Cfg.MaxRecords)
 		deleted := 0
 
 		// delete in batches to stay within transaction size limits
